@@ -569,17 +569,43 @@ def c17d(tree, ob):
             ob.site(SESS, call, 'START accepted only with no transfer in progress and an unused id')
     fv = FuncView(tree, SESS, 'ContactHandler._rx_setup')
     cls = tree.klass(SESS, 'ContactHandler')
+    # when every caller has already cleared the previous reception, "allocate only if none is active" is the same as
+    # "always allocate"
+    callers_clear = True
+    ncall = 0
+    for item in cls.body:
+        if isinstance(item, ast.FunctionDef):
+            for c in method_calls(item, '_rx_setup', 'self'):
+                ncall += 1
+                if not FuncView(tree, SESS, 'ContactHandler.' + item.name).has(c, 'self._rx_tmp is None', True):
+                    callers_clear = False
+    callers_clear = callers_clear and ncall > 0
+
+    def always(node):
+        if fv.cfg.must_pass(fv.cfg.entry, fv.cfg.exit, {fv.node(node)}, include_exc=False)[0]:
+            return True
+        if not callers_clear:
+            return False
+        # every path that skips it knows "a reception is active", which no caller allows
+        cuts = set()
+        for n in fv.cfg.nodes:
+            if n.kind == 'cond':
+                for (succ, lab) in n.succ:
+                    if lab in (True, False) and ('self._rx_tmp is None', False) in set(norm.cond_facts(n.ast, lab)):
+                        cuts.add((n.idx, succ.idx, lab))
+        return fv.cfg.exit not in fv.cfg.reachable([fv.cfg.entry], avoid=[fv.node(node)], avoid_edges=cuts, include_exc=False)
+
     news = [st for (f, st, _k, val) in stores_to_self_attr(cls, '_rx_tmp') if f is fv.func]
     new = one(news, 'assignment of the active RX item in _rx_setup', ob)
     if pm('BundleItem()', new.value) is None:
         ob.violate(SESS, fv.qual, src(new), 'a START segment does not begin with a fresh receive item', new)
-    elif not fv.cfg.must_pass(fv.cfg.entry, fv.cfg.exit, {fv.node(new)}, include_exc=False)[0]:
+    elif not always(new):
         ob.violate(SESS, fv.qual, src(new), 'a START segment can reuse the previous receive item', new)
     else:
         ob.site(SESS, new, 'fresh BundleItem on every START')
     files = [n for n in walk_local(fv.func) if isinstance(n, ast.Assign) and src(n.targets[0]) == 'self._rx_tmp.file']
     fl = one(files, 'receive buffer assignment in _rx_setup', ob)
-    if pm('BytesIO()', fl.value) is None or not fv.cfg.must_pass(fv.cfg.entry, fv.cfg.exit, {fv.node(fl)}, include_exc=False)[0]:
+    if pm('BytesIO()', fl.value) is None or not always(fl):
         ob.violate(SESS, fv.qual, src(fl), 'a START segment does not begin with an empty receive buffer (octets of an abandoned transfer can be delivered)', fl)
     else:
         ob.site(SESS, fl, 'fresh empty buffer on every START')
